@@ -2,6 +2,7 @@ package main
 
 import (
 	"math/rand"
+	"sort"
 	"strconv"
 	"strings"
 )
@@ -408,7 +409,12 @@ func (g *gen) genProgram(c *Case) *progInfo {
 					}
 				} else {
 					forget := g.p(0.25) // let the child's own keys collide with keys handed down later or earlier
+					pk := make([]string, 0, len(used[parent.h]))
 					for k := range used[parent.h] {
+						pk = append(pk, k)
+					}
+					sort.Strings(pk) // every random choice comes from the one PRNG, in a fixed order
+					for _, k := range pk {
 						if forget && g.p(0.5) {
 							continue
 						}
@@ -561,6 +567,45 @@ func (g *gen) genArgsAt(pi *progInfo) ([]string, *nodeInfo) {
 		// walk down the chain: a command name about every other word
 		n = 4 + g.r.Intn(10)
 		wDesc = 4.6
+	}
+	if pi.deep && g.p(0.5) {
+		// walk the whole chain: a few words / options / unknown options at each level, then the name of
+		// the sub-command that leads deepest
+		for {
+			for k := g.r.Intn(3); k > 0; k-- {
+				switch g.r.Intn(4) {
+				case 0:
+					args = append(args, g.pick(wordPool))
+				case 1:
+					args = append(args, []string{"--zzz", "-Q", "--zzz=1", "-Qx"}[g.r.Intn(4)])
+				case 2:
+					args = append(args, []string{"f.txt", "x", "1"}[g.r.Intn(3)])
+				default:
+					if len(cur.opts) > 0 {
+						oi := cur.opts[g.r.Intn(len(cur.opts))]
+						args = append(args, "--"+oi.keys[g.r.Intn(len(oi.keys))])
+						if oi.min > 0 {
+							args = append(args, g.valueFor(oi, true))
+						}
+					}
+				}
+			}
+			if len(cur.cmds) == 0 {
+				break
+			}
+			next := pi.nodes[cur.cmds[g.r.Intn(len(cur.cmds))]]
+			for _, ch := range cur.cmds {
+				if len(pi.nodes[ch].cmds) > 0 {
+					next = pi.nodes[ch]
+				}
+			}
+			if next.name == "" {
+				break
+			}
+			args = append(args, next.name)
+			cur = next
+		}
+		n = len(args) + g.r.Intn(3)
 	}
 	runAt := -1
 	if pi.big && g.p(0.3) {
